@@ -293,6 +293,9 @@ func ApplyFault(kind string, src, other []byte, r *Rng) ([]byte, string) {
 			return src, ""
 		}
 		cuts := BiasedCuts(src, r, 1)
+		if len(cuts) == 0 {
+			cuts = []int{r.Intn(n + 1)}
+		}
 		return append([]byte(nil), src[:cuts[0]]...), kind
 	case "F2-nonl":
 		t := []byte(strings.TrimRight(string(src), "\n \t"))
